@@ -261,6 +261,7 @@ var specials = map[string]func() []finding{
 	"same-name-node-types":      sameNameLifecycles,
 	"same-name-slice-types":     sameNameSliceTypes,
 	"zero-value-node-lifecycle": zeroValueNodeLifecycle,
+	"zero-size-pointer-nodes":   zeroSizePointerNodes,
 	"or-default-on-absent-keys": orDefaultOnAbsentKeys,
 	"bind-store-aware-hooks":    bindStoreAwareHooks,
 	"bind-cyclic-values":        bindCyclicValues,
@@ -433,6 +434,21 @@ func runRouteCase(cs *RouteCase) (fs []finding) {
 		if g, w := n.GetBatchConcurrency(), ref.GetBatchConcurrency(); g != w {
 			add("route-differs:negative-batch-concurrency:getter", "batch concurrency %d given through route %q: GetBatchConcurrency()=%d, the constructor-option form reports %d", cs.Val, cs.Route, g, w)
 		}
+		// an unrelated parameter: the error handling is what it was (default, or set explicitly before / after)
+		def := flyt.NewBatchNode().GetBatchErrorHandling()
+		for name, nn := range map[string]*flyt.BatchNodeBuilder{
+			"left at its default":              flyt.NewBatchNode(flyt.WithBatchConcurrency(cs.Val)),
+			"set to continue before (builder)": flyt.NewBatchNode().WithBatchErrorHandling(true).WithBatchConcurrency(cs.Val),
+			"set to continue before (options)": flyt.NewBatchNode(flyt.WithBatchErrorHandling(true), flyt.WithBatchConcurrency(cs.Val)),
+		} {
+			if g := nn.GetBatchErrorHandling(); g != def {
+				add("negative-batch-concurrency-changes-error-handling", "batch concurrency %d with the error handling %s: GetBatchErrorHandling() = %q, an unconfigured node reports %q — unrelated parameters stay untouched", cs.Val, name, g, def)
+			}
+		}
+		stopN := flyt.NewBatchNode().WithBatchErrorHandling(false).WithBatchConcurrency(cs.Val)
+		if g, w := stopN.GetBatchErrorHandling(), flyt.NewBatchNode().WithBatchErrorHandling(false).GetBatchErrorHandling(); g != w {
+			add("negative-batch-concurrency-changes-error-handling", "batch concurrency %d after stop mode was chosen: GetBatchErrorHandling() = %q, want %q", cs.Val, g, w)
+		}
 		mr, or, er := seqProbe(ref)
 		mn, on, en := seqProbe(n)
 		if er != nil || en != nil {
@@ -563,6 +579,48 @@ func runRouteCase(cs *RouteCase) (fs []finding) {
 			if got != cs.Val {
 				add("route-differs:exec-form-parallelism:"+form, "batch of %d blocking items with concurrency %d, exec function given as %s: %d executions are in flight when nothing moves any more, want %d", 2*cs.Val+1, cs.Val, form, got, cs.Val)
 			}
+		}
+	case "exec-set-again-after-a-run":
+		// the exec function is set again after the node has run: the last setting wins on the next run, through every route
+		calls := map[string]int{}
+		f1 := func(ctx context.Context, v any) (any, error) { calls["first"]++; return v, nil }
+		f2 := func(ctx context.Context, v any) (any, error) { calls["second"]++; return v, nil }
+		prep := func(ctx context.Context, s *flyt.SharedStore) ([]flyt.Result, error) {
+			return []flyt.Result{flyt.NewResult(1), flyt.NewResult(2)}, nil
+		}
+		var node flyt.Node
+		var reset func()
+		switch cs.Route {
+		case "batch-builder":
+			bn := flyt.NewBatchNode().WithBatchConcurrency(cs.Val).WithPrepFunc(prep).WithExecFuncAny(f1)
+			node, reset = bn, func() { bn.WithExecFuncAny(f2) }
+		case "batch-option-then-builder":
+			bn := flyt.NewBatchNode(flyt.WithExecFuncAny(f1), flyt.WithBatchConcurrency(cs.Val)).WithPrepFunc(prep)
+			node, reset = bn, func() { bn.WithExecFuncAny(f2) }
+		case "batch-builder-result-style":
+			bn := flyt.NewBatchNode().WithBatchConcurrency(cs.Val).WithPrepFunc(prep).WithExecFuncAny(f1)
+			node, reset = bn, func() {
+				bn.WithExecFunc(func(ctx context.Context, it flyt.Result) (flyt.Result, error) { calls["second"]++; return it, nil })
+			}
+		case "node-builder":
+			nb := flyt.NewNode().WithExecFuncAny(f1)
+			node, reset = nb, func() { nb.WithExecFuncAny(f2) }
+		case "node-option-then-builder":
+			nb := flyt.NewNode(flyt.WithExecFuncAny(f1))
+			node, reset = nb, func() { nb.WithExecFuncAny(f2) }
+		}
+		if _, err := flyt.Run(context.Background(), node, flyt.NewSharedStore()); err != nil {
+			add("exec-set-again:first-run-failed", "%v", err)
+			return
+		}
+		reset()
+		before := calls["first"]
+		if _, err := flyt.Run(context.Background(), node, flyt.NewSharedStore()); err != nil {
+			add("exec-set-again:second-run-failed", "%v", err)
+			return
+		}
+		if calls["second"] == 0 || calls["first"] != before {
+			add("exec-set-again-after-a-run:"+cs.Route, "route %s: the node ran once with its first exec function, then the exec function was set again (builder method): on the next run the FIRST function was called %d more times and the second one %d times — the last setting wins", cs.Route, calls["first"]-before, calls["second"])
 		}
 	case "fallback-option-next-to-a-budget":
 		// installing a fallback function touches no other parameter: the budget given next to it (before or after, as
@@ -940,4 +998,68 @@ func formLimitRun(form string, cc, n int) (parked int, incon string) {
 		return parked, "quiescence not reached"
 	}
 	return parked, ""
+}
+
+// zsA / zsB / zsC are node types without any fields, used through pointers: Go may give all such pointers the same
+// address, they are different nodes all the same (an interface value is its type AND its pointer).
+type zsA struct{}
+type zsB struct{}
+type zsC struct{}
+
+var zsVisits []string
+
+func (*zsA) Prep(ctx context.Context, s *flyt.SharedStore) (any, error) { return nil, nil }
+func (*zsA) Exec(ctx context.Context, p any) (any, error) {
+	zsVisits = append(zsVisits, "A")
+	return nil, nil
+}
+func (*zsA) Post(ctx context.Context, s *flyt.SharedStore, p, e any) (flyt.Action, error) {
+	return "", nil
+}
+func (*zsB) Prep(ctx context.Context, s *flyt.SharedStore) (any, error) { return nil, nil }
+func (*zsB) Exec(ctx context.Context, p any) (any, error) {
+	zsVisits = append(zsVisits, "B")
+	return nil, nil
+}
+func (*zsB) Post(ctx context.Context, s *flyt.SharedStore, p, e any) (flyt.Action, error) {
+	return "", nil
+}
+func (*zsC) Prep(ctx context.Context, s *flyt.SharedStore) (any, error) { return nil, nil }
+func (*zsC) Exec(ctx context.Context, p any) (any, error) {
+	zsVisits = append(zsVisits, "C")
+	return nil, nil
+}
+func (*zsC) Post(ctx context.Context, s *flyt.SharedStore, p, e any) (flyt.Action, error) {
+	return "stop", nil
+}
+
+// zeroSizePointerNodes: A -default-> B -default-> C: each node's own default connection is followed.
+func zeroSizePointerNodes() (fs []finding) {
+	zeroValMu.Lock()
+	defer zeroValMu.Unlock()
+	for _, order := range []string{"forward", "backward"} {
+		a, b, cN := &zsA{}, &zsB{}, &zsC{}
+		f := flyt.NewFlow(a)
+		if order == "forward" {
+			f.Connect(a, flyt.DefaultAction, b)
+			f.Connect(b, flyt.DefaultAction, cN)
+		} else {
+			f.Connect(b, flyt.DefaultAction, cN)
+			f.Connect(a, flyt.DefaultAction, b)
+		}
+		zsVisits = nil
+		var err error
+		func() {
+			defer func() {
+				if p := recover(); p != nil {
+					err = fmt.Errorf("panic: %v", p)
+				}
+			}()
+			err = f.Run(context.Background(), flyt.NewSharedStore())
+		}()
+		if got := fmt.Sprint(zsVisits); err != nil || got != "[A B C]" {
+			fs = append(fs, finding{"zero-size-pointer-nodes:" + order, fmt.Sprintf("three field-less node types used through pointers, connected A -default-> B -default-> C (%s): nodes executed %s (err %v), want [A B C] — the connection on the default action of each node is followed", order, got, err)})
+		}
+	}
+	return fs
 }
